@@ -41,6 +41,7 @@ ASSUMPTIONS = ['flags.enable_conn_pool is False (default)',
                'and tasks complete in the iteration that created them (true of all handlers shipped with proxy.py)',
                'constructing the work object (work_klass(...)) does not raise; BaseException (KeyboardInterrupt, CancelledError) is out of scope']
 SHARD = 18
+CASE_TIMEOUT = 30      # a case whose implementation run does not return (a loop inside the worker) is a failing input
 
 
 # ----------------------------------------------------------------------------- generation
@@ -61,6 +62,7 @@ def generate(rng, tier):
         cases.append(c)
     for _ in range(36 if quick else 1000):
         cases.append(gen_http(rng))
+    cases += gen_framing(rng, 48 if quick else None)
     return cases
 
 
@@ -185,6 +187,69 @@ def adversarial_conv(rng, kind, name, arrive):
     if kind == 'upstream_send_err':
         return dict(base, client=[req], upstreams=[dict(send=[rng.choice(['pipe', 'oserror', 'reset'])], respond=ok_resp)])
     raise ValueError(kind)
+
+
+# adversarial BYTE streams aimed at the loops of the parsers, which run synchronously inside the worker's loop:
+# malformed chunk-size lines, Content-Length oddities, header lines without a colon, non-UTF-8 — in every role
+CHUNK_SIZES = [b'-5', b'+5', b'0x5', b'5_0', b' 5', b'5 ', b'-0', b'', b';ext=1', b'FFFFFFFFFFFFFFFFFFFF', b'\xff', b'5;x', b'00000000000000000005', b'-FFFFFFFF']
+CL_HEADERS = [b'Content-Length: 5\r\nContent-Length: 0', b'Content-Length: 0\r\nContent-Length: 5', b'Content-Length: -1', b'Content-Length: +5',
+              b'Content-Length: 99999999999999999999', b'Content-Length: five', b'Content-Length: 5, 5', b'Content-Length: 0x5', b'Content-Length: 5_0',
+              b'Content-Length:', b'Content-Length: 5\r\nTransfer-Encoding: chunked']
+ODD_HEADERS = [b'NoColonHere', b'X: a\r\n folded', b'\xff\xfe: v', b'X\x00Y: v', b': empty-name', b'Host', b'X: ' + b'\xff' * 10, b'Transfer-Encoding: gzip, chunked',
+               b'Transfer-Encoding: chunked, chunked', b'Connection: keep-alive\r\nConnection: close']
+FRAMING_ROLES = ['forward', 'web', 'reverse', 'upstream_response']
+
+
+def framing_payloads(rng):
+    """(what, headers, body) triples"""
+    out = []
+    for sz in CHUNK_SIZES:
+        out.append(('chunk-size %r' % sz, b'Transfer-Encoding: chunked', sz + b'\r\nhello\r\n0\r\n\r\n'))
+        out.append(('chunk-size %r then EOF' % sz, b'Transfer-Encoding: chunked', sz + b'\r\nhello'))
+    for cl in CL_HEADERS:
+        out.append(('content-length %r' % cl, cl, b'hello'))
+    for h in ODD_HEADERS:
+        out.append(('header %r' % h[:20], h, b''))
+    return out
+
+
+def framing_conv(rng, role, payload, name, arrive):
+    what, hdr, body = payload
+    ok_resp = [b'HTTP/1.1 200 OK\r\nContent-Length: 2\r\n\r\nok', 'EOF']
+    base = dict(name=name, arrive=arrive, role='framing:%s:%s' % (role, what))
+    if role == 'forward':
+        req = b'POST http://adv.test/f HTTP/1.1\r\nHost: adv.test\r\n' + hdr + b'\r\n\r\n' + body
+        return dict(base, hosts=['adv.test'], client=split_random(rng, req), upstreams=[dict(respond=ok_resp)])
+    if role == 'web':
+        req = b'POST /nothing HTTP/1.1\r\nHost: localhost\r\n' + hdr + b'\r\n\r\n' + body
+        return dict(base, hosts=[], client=split_random(rng, req), upstreams=[])
+    if role == 'reverse':
+        req = b'POST /rev/a HTTP/1.1\r\nHost: localhost\r\n' + hdr + b'\r\n\r\n' + body
+        return dict(base, hosts=['rev.upstream.test'], shared_host=True, client=split_random(rng, req), upstreams=[dict(respond=ok_resp)])
+    # the malformed framing comes back from the upstream
+    req = b'GET http://adv.test/r HTTP/1.1\r\nHost: adv.test\r\n\r\n'
+    resp = b'HTTP/1.1 200 OK\r\n' + hdr + b'\r\n\r\n' + body
+    return dict(base, hosts=['adv.test'], client=[req], upstreams=[dict(respond=split_random(rng, resp) + ['EOF'])])
+
+
+def split_random(rng, data):
+    if len(data) < 4 or rng.random() < 0.5:
+        return [data]
+    k = rng.randrange(1, len(data))
+    return [data[:k], data[k:]]
+
+
+def gen_framing(rng, n=None):
+    """one adversarial framing conversation + one canary each; all (role x payload) in the thorough tier"""
+    grid = [(role, pl) for role in FRAMING_ROLES for pl in framing_payloads(rng)]
+    if n is not None:
+        grid = rng.sample(grid, min(n, len(grid)))
+    cases = []
+    for role, pl in grid:
+        can_kind = rng.choice(['get', 'post_split', 'chunked', 'web404'])
+        convs = [canary_conv(rng, can_kind, 'c0', rng.choice([0, 1])), framing_conv(rng, role, pl, 'adv', rng.choice([0, 1]))]
+        cases.append(dict(kind='http', convs=convs, adv='framing:%s:%s' % (role, pl[0])))
+    return cases
 
 
 def gen_http(rng, adv_kind=None):
